@@ -17,7 +17,7 @@ pub const COUNTERS: &[&str] = &[
     "walk_histories",
     "menu_histories", "menu_operations", "menu_claimable_states", "menu_claims_executed", "menu_illegal_menu_moves_refused",
     "filler_histories", "filler_plies", "filler_boundary_claims_executed", "filler_claimable_plies", "filler_deviations_pawn", "filler_deviations_capture",
-    "filler_deviations_rook_loses_right", "filler_deviations_king_loses_rights", "filler_deviations_castle", "filler_deviations_offer", "filler_deviations_pawn_capture", "filler_deviations_promotion", "filler_long_histories", "filler_terminal_moves_tried", "filler_event_slots_unavailable", "t3_tolerated",
+    "filler_deviations_rook_loses_right", "filler_deviations_king_loses_rights", "filler_deviations_castle", "filler_deviations_offer", "filler_deviations_pawn_capture", "filler_deviations_promotion", "filler_deviations_double_push_then_onto_skipped", "filler_long_histories", "filler_terminal_moves_tried", "filler_event_slots_unavailable", "t3_tolerated",
 ];
 
 struct MenuRoot {
@@ -34,6 +34,8 @@ const MENU_ROOTS: &[MenuRoot] = &[
     MenuRoot { fen: "r3k3/8/8/8/8/8/8/R3K3 b Qq - 0 1", menu: &["a8b8", "b8a8", "a1b1", "b1a1", "e8d8", "d8e8", "b8b1", "a8a1"], what: "black to move first; captures that cut the history" },
     MenuRoot { fen: "6k1/8/8/8/8/8/1q6/6K1 b - - 0 1", menu: &["b2b1", "b1b2", "g1g2", "g2g1", "g1h2", "h2g1", "g8g7", "g7g8"], what: "repetition through checks (queen checks on the first rank)" },
     MenuRoot { fen: "rnbqkbnr/pppppppp/8/8/8/8/PPPPPPPP/RNBQKBNR b KQkq - 0 1", menu: &["g8f6", "f6g8", "g1f3", "f3g1", "h7h5", "h8h7", "h7h8"], what: "black starts; a rook shuffle that silently drops a right after a pawn move" },
+    MenuRoot { fen: "4k3/8/8/7R/8/8/8/4K2R w K - 0 1", menu: &["h5g5", "g5h5", "e8d8", "d8e8", "h1g1", "g1h1", "h5h2", "h2h5"], what: "a SECOND rook on the file of a home rook that still holds its right: its moves change no right" },
+    MenuRoot { fen: "r3k3/8/8/r7/8/8/8/4K3 b q - 0 1", menu: &["a5b5", "b5a5", "e1d1", "d1e1", "a8b8", "b8a8", "a5a7", "a7a5"], what: "the same for Black on the a-file, Black to move first" },
 ];
 
 fn report(run: &Run, f: Fail, start: &RefPos, ops: &[GOp]) -> bool {
@@ -158,6 +160,10 @@ pub enum Event {
     PawnCapture,
     /// a promotion (push or capture)
     Promotion,
+    /// a double pawn push that lands beside an enemy pawn (creates an en-passant right)
+    DoublePush,
+    /// directly after such a push: a quiet NON-pawn move onto the square the pawn skipped
+    OntoSkipped,
 }
 const EVENTS: [Event; 8] = [Event::PawnMove, Event::Capture, Event::RookLosesRight, Event::KingLosesRights, Event::Castle, Event::Offer, Event::PawnCapture, Event::Promotion];
 
@@ -175,6 +181,8 @@ fn event_move(p: &RefPos, e: Event) -> Option<RMove> {
             Event::KingLosesRights => k == Some(Kind::K) && rights_change && !p.is_castle(*m) && !p.is_capture(*m),
             Event::Castle => p.is_castle(*m),
             Event::Offer => false,
+            Event::DoublePush => p.is_double_push(*m) && p.apply(*m).ep_adjacent(),
+            Event::OntoSkipped => p.dp >= 0 && k != Some(Kind::P) && !p.is_capture(*m) && file_of(m.to) == p.dp && rank_of(m.to) == p.stm.flip().dp_rank() - p.stm.flip().dir(),
         }
     })
 }
@@ -222,6 +230,8 @@ pub fn build_history(start: &RefPos, devs: &[(usize, Event)], horizon: usize) ->
     }
     Some(hist)
 }
+
+pub const SKIP_ROOTS: &[&str] = &["4k3/3p4/8/2n1P3/2N1p3/8/3P4/4K3 w - - 0 1", "7k/3p4/8/2n1P3/2N1p3/8/3P4/7K w - - 0 1"];
 
 pub const FILLER_ROOTS: &[&str] = &[
     "r1n1k2r/p2p4/8/8/8/8/P2P4/R1N1K2R w KQkq - 0 1",
@@ -372,6 +382,8 @@ pub enum WalkDev {
     None,
     PawnMove(usize),
     Offer(usize),
+    /// a draw offer as the very first action AND a history-cutting pawn move at the given ply
+    OfferThenPawnMove(usize),
 }
 
 pub fn build_walk(a: usize, b: usize, dev: WalkDev, plies: usize) -> Option<(RefPos, Vec<GOp>)> {
@@ -388,10 +400,14 @@ pub fn build_walk(a: usize, b: usize, dev: WalkDev, plies: usize) -> Option<(Ref
                 ops.push(GOp::Offer(p.stm));
                 continue;
             }
+            WalkDev::OfferThenPawnMove(_) if ply == 0 && ops.is_empty() => {
+                ops.push(GOp::Offer(Col::W));
+                continue;
+            }
             _ => {}
         }
         let m = match dev {
-            WalkDev::PawnMove(t) if t == ply => {
+            WalkDev::PawnMove(t) | WalkDev::OfferThenPawnMove(t) if t == ply => {
                 let (f, t2) = if p.stm == Col::W { (sq(7, 1), sq(7, 2)) } else { (sq(7, 6), sq(7, 5)) };
                 RMove { from: f, to: t2, promo: None }
             }
@@ -417,7 +433,99 @@ pub fn build_walk(a: usize, b: usize, dev: WalkDev, plies: usize) -> Option<(Ref
     Some((start, ops))
 }
 
-pub const RULE: &str = "Regime A (repetition): 8 roots, each with a fixed menu of 7-10 moves (knight and king shuffles; rooks/kings leaving and re-entering home squares so that placement repeats with different rights; a double push whose en-passant right exists only on the first occurrence; triangulation; history-cutting captures and pawn moves); EVERY sequence over menu + declare_draw + (at most one) offer_draw to depth 9 (quick) / 11-12 (thorough); menu moves illegal in the current state are attempted and must be refused. Regime B (fifty-move boundary, deviation bounding): from 6 roots (two of them K+R v K with a mate in one available throughout) a deterministic self-avoiding filler of reversible, rights-preserving moves (depth-first, first in sorted order) is the default behaviour; deviations are events spliced in at ply i (quiet pawn move, capture, rook move losing a right, king move losing both, castling, an unaccepted draw offer = a non-move entry in the action log, a capture by a pawn, a promotion); plus one undisturbed history of 280 (thorough 420) plies per root, every i in 0..=104 x every event kind with 1 deviation (quick) and every pair with 2 deviations (thorough); can_declare_draw() is compared after EVERY ply and at clock 95..=104 declare_draw() is also executed on a clone; whenever a mating or stalemating move is available (every 7th ply and from clock 95 on) it is played on a clone followed by declare_draw and accept_draw, which a finished game must refuse. Regime C (long-span repetition): both kings walk simple cycles of period a and b moves (a, b in 2..=12; every position recurs exactly every 2*lcm(a,b) plies, so first-to-third spans from 8 to 528 plies occur), for 140 plies (thorough 300), undisturbed and with one deviation (a history-cutting quiet pawn move, or an unaccepted draw offer) at EVERY ply (thorough; quick: every ply for the pawn move when 4*lcm < 100, every 3rd otherwise); can_declare_draw() compared after every ply and declare_draw() executed on a clone wherever the claim status changes. Oracle: FIDE 9.2/9.3 on the reference game (no result, and clock >= 100 or current position occurred >= 3 times; identity = placement, side, rights, en-passant possibility; histories whose verdict differs between 'a legal en-passant capture exists' and 'an enemy pawn stands beside' are not judged, T3). states = histories, transitions = operations. distinct_nontrivial = histories/plies at which a claim is due";
+// ------------------------------------------------------------------------------------------
+// Regime D: long-span repetition where position identity depends on castling rights.  White keeps
+// K e1 + R a1 with the queen-side right and walks a KNIGHT round a simple cycle (even period a);
+// Black walks its king (period b).  Deviation "rook trip": at White's first turn at or after ply t
+// the rook steps a1-a2 and at White's next turn a2-a1 — the clock keeps running and every placement
+// recurs, but with the right gone the earlier occurrences no longer count.
+
+pub const WALK_ROOT_D: &str = "4k3/7p/8/p7/P7/8/7P/R3K1N1 w Q - 0 1";
+
+fn knight_cycle(from: Sq, len: usize, blocked: &[Sq]) -> Option<Vec<Sq>> {
+    fn adj(a: Sq, b: Sq) -> bool {
+        let (df, dr) = ((file_of(a) - file_of(b)).abs(), (rank_of(a) - rank_of(b)).abs());
+        (df == 1 && dr == 2) || (df == 2 && dr == 1)
+    }
+    fn go(path: &mut Vec<Sq>, len: usize, cells: &[Sq]) -> bool {
+        let last = *path.last().unwrap();
+        if path.len() == len {
+            return len == 2 || adj(last, path[0]);
+        }
+        for c in cells {
+            if adj(last, *c) && !path.contains(c) {
+                path.push(*c);
+                if go(path, len, cells) {
+                    return true;
+                }
+                path.pop();
+            }
+        }
+        false
+    }
+    // ranks 1-4 only: from there a knight never attacks the black king's ranks 7-8
+    let cells: Vec<Sq> = (0..8i8).flat_map(|f| (0..4i8).map(move |r| sq(f, r))).filter(|s| !blocked.contains(s)).collect();
+    let mut path = vec![from];
+    if go(&mut path, len, &cells) {
+        Some(path)
+    } else {
+        None
+    }
+}
+
+#[derive(Clone, Copy, Debug, PartialEq, Eq)]
+pub enum WalkDevD {
+    None,
+    RookTrip(usize),
+    RookTripAndOffer(usize),
+}
+
+pub fn build_walk_d(a: usize, b: usize, dev: WalkDevD, plies: usize) -> Option<(RefPos, Vec<GOp>)> {
+    let start = RefPos::from_fen(WALK_ROOT_D).ok()?;
+    // a2 stays free for the rook trip (the a-file is closed by the pawns a4 / a5, so the rook never
+    // attacks the black king's squares)
+    let wc = knight_cycle(sq(6, 0), a, &[sq(0, 0), sq(0, 1), sq(0, 3), sq(4, 0), sq(7, 1)])?;
+    let bc = king_cycle(start.king_sq(Col::B)?, b, [7, 6])?;
+    let (mut wi, mut bi) = (0usize, 0usize);
+    let mut p = start;
+    let mut ops = vec![];
+    let mut ply = 0usize;
+    let mut trip = 0u8; // 0 = not started, 1 = rook is out, 2 = done
+    let at = match dev {
+        WalkDevD::None => usize::MAX,
+        WalkDevD::RookTrip(t) | WalkDevD::RookTripAndOffer(t) => t,
+    };
+    while ply < plies {
+        let m = if p.stm == Col::W && trip == 0 && ply >= at {
+            trip = 1;
+            if matches!(dev, WalkDevD::RookTripAndOffer(_)) {
+                ops.push(GOp::Offer(Col::B));
+            }
+            RMove { from: sq(0, 0), to: sq(0, 1), promo: None }
+        } else if p.stm == Col::W && trip == 1 {
+            trip = 2;
+            RMove { from: sq(0, 1), to: sq(0, 0), promo: None }
+        } else if p.stm == Col::W {
+            let m = RMove { from: wc[wi % a], to: wc[(wi + 1) % a], promo: None };
+            wi += 1;
+            m
+        } else {
+            let m = RMove { from: bc[bi % b], to: bc[(bi + 1) % b], promo: None };
+            bi += 1;
+            m
+        };
+        if !p.legal_moves().contains(&m) {
+            eprintln!("walk D: move {} illegal in {} (ply {ply}, cycle {:?})", m.uci(), p.fen(), wc);
+            return None;
+        }
+        p = p.apply(m);
+        ops.push(GOp::Move(m));
+        ply += 1;
+    }
+    Some((start, ops))
+}
+
+pub const RULE: &str = "Regime A (repetition): 8 roots, each with a fixed menu of 7-10 moves (knight and king shuffles; rooks/kings leaving and re-entering home squares so that placement repeats with different rights; a double push whose en-passant right exists only on the first occurrence; triangulation; history-cutting captures and pawn moves); EVERY sequence over menu + declare_draw + (at most one) offer_draw to depth 9 (quick) / 11-12 (thorough); menu moves illegal in the current state are attempted and must be refused. Regime B (fifty-move boundary, deviation bounding): from 6 roots (two of them K+R v K with a mate in one available throughout) a deterministic self-avoiding filler of reversible, rights-preserving moves (depth-first, first in sorted order) is the default behaviour; deviations are events spliced in at ply i (quiet pawn move, capture, rook move losing a right, king move losing both, castling, an unaccepted draw offer = a non-move entry in the action log, a capture by a pawn, a promotion); from two further roots a double push that creates an en-passant right followed at once by a quiet piece move onto the skipped square (plies i, i+1 for i <= 20); plus one undisturbed history of 280 (thorough 420) plies per root, every i in 0..=104 x every event kind with 1 deviation (quick) and every pair with 2 deviations (thorough); can_declare_draw() is compared after EVERY ply and at clock 95..=104 declare_draw() is also executed on a clone; whenever a mating or stalemating move is available (every 7th ply and from clock 95 on) it is played on a clone followed by declare_draw and accept_draw, which a finished game must refuse. Regime C (long-span repetition): both kings walk simple cycles of period a and b moves (a, b in 2..=12; every position recurs exactly every 2*lcm(a,b) plies, so first-to-third spans from 8 to 528 plies occur), for 140 plies (thorough 300), undisturbed and with one deviation (a history-cutting quiet pawn move, an unaccepted draw offer, or an offer as the first action plus the pawn move) at EVERY ply (thorough; quick: every ply for the pawn move when 4*lcm < 100, every 3rd otherwise); can_declare_draw() compared after every ply and declare_draw() executed on a clone wherever the claim status changes. Regime D (identity by castling rights across long spans): White keeps K e1 + R a1 with the queen-side right and walks a knight round a simple cycle of even period a <= 10, Black walks its king (period b <= 9), for 130 plies (thorough 260); undisturbed and with a 'rook trip' (a1-a2 and back at White's next turn: the clock keeps running and every placement recurs, but without the right the earlier occurrences no longer count; optionally preceded by a draw offer) started at EVERY ply. Oracle: FIDE 9.2/9.3 on the reference game (no result, and clock >= 100 or current position occurred >= 3 times; identity = placement, side, rights, en-passant possibility; histories whose verdict differs between 'a legal en-passant capture exists' and 'an enemy pawn stands beside' are not judged, T3). states = histories, transitions = operations. distinct_nontrivial = histories/plies at which a claim is due";
 
 pub fn run(tier: Tier) -> i32 {
     let run = Arc::new(Run::new("C11", tier, COUNTERS));
@@ -477,6 +585,17 @@ pub fn run(tier: Tier) -> i32 {
             }
         }
     }
+    // a double push that creates an en-passant right, answered at once by a quiet piece move onto the
+    // skipped square (not a capture, not a pawn move: the clock must keep running), then the fifty-move boundary
+    for f in SKIP_ROOTS {
+        let start = RefPos::from_fen(f).expect("machinery: skip root");
+        for st in [start, start.mirror_v()] {
+            for i in 0..=20usize {
+                hist_jobs.push((st, vec![(i, Event::DoublePush), (i + 1, Event::OntoSkipped)]));
+                hist_jobs.push((st, vec![(i, Event::DoublePush)]));
+            }
+        }
+    }
     let total = hist_jobs.len();
     hist_jobs.par_iter().for_each(|(start, devs)| {
         if run.has_violation() || run.over_budget() {
@@ -498,6 +617,7 @@ pub fn run(tier: Tier) -> i32 {
                             Event::Offer => "filler_deviations_offer",
                             Event::PawnCapture => "filler_deviations_pawn_capture",
                             Event::Promotion => "filler_deviations_promotion",
+                            Event::DoublePush | Event::OntoSkipped => "filler_deviations_double_push_then_onto_skipped",
                         },
                         1,
                     );
@@ -533,6 +653,9 @@ pub fn run(tier: Tier) -> i32 {
             let dense = tier == Tier::Thorough || 4 * lcm < 100;
             for t in (0..walk_plies.min(140)).step_by(if dense { 1 } else { 3 }) {
                 walk_jobs.push((a, b, WalkDev::PawnMove(t)));
+                if t % 2 == 0 || tier == Tier::Thorough {
+                    walk_jobs.push((a, b, WalkDev::OfferThenPawnMove(t)));
+                }
             }
             for t in (0..walk_plies.min(140)).step_by(if tier == Tier::Thorough { 1 } else { 5 }) {
                 walk_jobs.push((a, b, WalkDev::Offer(t)));
@@ -555,6 +678,36 @@ pub fn run(tier: Tier) -> i32 {
         }
     });
     run.note("walk_root", json!(WALK_ROOT));
+    // ---- regime D
+    let d_plies = tier.pick(130usize, 260usize);
+    let mut d_jobs: Vec<(usize, usize, WalkDevD)> = vec![];
+    for a in [2usize, 4, 6, 8, 10] {
+        for b in 2..=9usize {
+            d_jobs.push((a, b, WalkDevD::None));
+            for t in 0..d_plies.min(130) {
+                d_jobs.push((a, b, WalkDevD::RookTrip(t)));
+                if t % 4 == 0 || tier == Tier::Thorough {
+                    d_jobs.push((a, b, WalkDevD::RookTripAndOffer(t)));
+                }
+            }
+        }
+    }
+    d_jobs.par_iter().for_each(|(a, b, dev)| {
+        if run.has_violation() || run.over_budget() {
+            return;
+        }
+        match build_walk_d(*a, *b, *dev, d_plies) {
+            None => {
+                eprintln!("MACHINERY FAILURE: walk history D a={a} b={b} {:?} cannot be built", dev);
+                std::process::exit(2);
+            }
+            Some((start, h)) => {
+                run.add("walk_histories", 1);
+                run_history_ext(&run, &start, &h, &format!("walk D a={a} b={b} {:?}", dev), true);
+            }
+        }
+    });
+    run.note("walk_root_d", json!(WALK_ROOT_D));
     if run.over_budget() {
         run.cap(format!("wall-clock budget reached in regime B: {} of {} deviation histories run", run.get("filler_histories"), total));
     }
